@@ -388,7 +388,20 @@ func TestExample(t *testing.T) {
 		case 7: // many expansions of user types in one example: wide objects, sheets, families of types
 			var b strings.Builder
 			types := []lib.Named{{Name: "@id", Text: "1 // {min: 0}"}, {Name: "@cell", Text: "{\n  \"v\": @id,\n  \"note\": \"n\" // {optional: true}\n}"}}
-			switch rapid.IntRange(0, 2).Draw(t, "manyShape") {
+			switch rapid.IntRange(0, 3).Draw(t, "manyShape") {
+			case 3: // many references to a type whose array has to hold items (minItems) that are no literals
+				n := rapid.IntRange(95, 160).Draw(t, "nLists")
+				min := rapid.IntRange(1, 2).Draw(t, "minItems")
+				types = append(types, lib.Named{Name: "@list", Text: fmt.Sprintf("{\n  \"xs\": [ // {minItems: %d}\n    @cell,\n    {\"w\": @id}\n  ]\n}", min)})
+				b.WriteString("{\n")
+				for i := 0; i < n; i++ {
+					fmt.Fprintf(&b, "  \"p%03d\": @list", i)
+					if i < n-1 {
+						b.WriteString(",")
+					}
+					b.WriteString("\n")
+				}
+				b.WriteString("}")
 			case 0: // a flat object with n references, the last ones required like the first
 				n := rapid.IntRange(900, 1500).Draw(t, "nRefs")
 				b.WriteString("{\n")
